@@ -34,12 +34,14 @@ Atom == <<
   <<64, 123, 57, 57, 57, 57, 57, 57, 57, 57, 57, 57, 57, 124, 97, 125>>,       \* 34 @{99999999999|a} (offset beyond 32 bits)
   <<64, 123, 88, 49, 124, 110, 111, 109, 110, 124, 125>>,                      \* 35 @{X1|nomn|} (empty last field)
   <<64, 123, 52, 48, 48, 48, 48, 124, 100, 125>>,                              \* 36 @{40000|d} (offset beyond 16 bits)
-  <<64, 123, 88, 49, 124, 32, 110, 111, 109, 110, 32, 44, 122, 122, 122, 122, 44, 115, 105, 110, 103, 125>>   \* 37 @{X1| nomn ,zzzz,sing}
+  <<64, 123, 88, 49, 124, 32, 110, 111, 109, 110, 32, 44, 122, 122, 122, 122, 44, 115, 105, 110, 103, 125>>,  \* 37 @{X1| nomn ,zzzz,sing}
+  <<64, 123, 88, 52, 124, 110, 111, 109, 110, 125>>      \* 38 @{X4|nomn}: resolves to a text of the same length (10) as the reference
 >>
 
 Ctx == (<<88, 49>> :> [nominal |-> <<1095, 1077, 1083, 1086, 1074, 1077, 1082>>, manual |-> <<>>])
     @@ (<<88, 50>> :> [nominal |-> <<>>, manual |-> <<>>])
     @@ (<<88, 51>> :> [nominal |-> <<116, 51>>, manual |-> ({25, 32} :> <<1083, 1102, 1076, 1103, 1084>>)])
+    @@ (<<88, 52>> :> [nominal |-> <<97, 98, 99, 100, 101, 102, 103, 104, 105, 233>>, manual |-> <<>>])
 RenameMap == (<<88, 49>> :> <<88, 49, 49>>) @@ (<<88, 51>> :> <<88, 49>>) @@ (<<88, 50>> :> <<88, 50>>)
 
 VARIABLES mode, atoms, ranges, hist, len
@@ -50,6 +52,8 @@ Flatten(q) == IF q = <<>> THEN <<>> ELSE Atom[Head(q)] \o Flatten(Tail(q))
 
 \* texts the manager histories start from (atom sequences)
 MgrPool == IF WithMgr THEN {<<17, 22, 17>>, <<26, 17, 23>>, <<23, 17, 17, 27>>, <<17, 17, 17>>} ELSE {}
+\* texts the same manager may be asked to resolve later (a longer one with a same-length resolution included)
+ResolvePool == MgrPool \cup {<<22, 17, 38, 17, 38>>}
 Resolution(refs, i) ==     \* the text a reference resolves to, placeholders in today's wording (drift level)
   LET k == ResolutionKind(refs, i, Ctx) IN
   IF k = "form" THEN ResolutionText(refs, i, Ctx)
@@ -73,15 +77,20 @@ Next ==
   \/ /\ mode = "mgr" /\ Len(hist) < MaxOps /\ UNCHANGED <<mode, atoms>>
      /\ \/ \E pos \in 0..len, which \in {22, 23} :
              LET ok == InsertAllowed(ranges, pos) IN
+             /\ len <= 16             \* range operations are enumerated on the short texts only
              /\ ranges' = IF ok THEN InsertRange(ranges, pos, InsLen(which)) ELSE ranges
              /\ len' = IF ok THEN len + InsLen(which) ELSE len
-             /\ hist' = Append(hist, [op |-> "Insert", a |-> pos, b |-> which, x |-> FALSE, ok |-> ok, r |-> [s |-> 0, f |-> 0], ranges |-> ranges'])
+             /\ hist' = Append(hist, [op |-> "Insert", a |-> pos, b |-> which, x |-> FALSE, ok |-> ok, r |-> [s |-> 0, f |-> 0], ranges |-> ranges', cps |-> <<>>])
+        \/ \E q \in ResolvePool :   \* the same manager resolves another text: nothing of the previous one may survive
+             /\ ranges' = InitRanges(q) /\ len' = InitLen(q)
+             /\ hist' = Append(hist, [op |-> "Resolve", a |-> 0, b |-> 0, x |-> FALSE, ok |-> TRUE, r |-> [s |-> 0, f |-> 0],
+                                      ranges |-> ranges', cps |-> Flatten(q)])
         \/ \E a \in 0..len, b \in 0..len, x \in BOOLEAN :
-             /\ a <= b
+             /\ a <= b /\ len <= 16
              /\ LET e == EraseIn(ranges, [s |-> a, f |-> b], x) IN
                 /\ ranges' = e.ranges
                 /\ len' = IF e.ok THEN len - (e.rng.f - e.rng.s) ELSE len
-                /\ hist' = Append(hist, [op |-> "Erase", a |-> a, b |-> b, x |-> x, ok |-> e.ok, r |-> e.rng, ranges |-> e.ranges])
+                /\ hist' = Append(hist, [op |-> "Erase", a |-> a, b |-> b, x |-> x, ok |-> e.ok, r |-> e.rng, ranges |-> e.ranges, cps |-> <<>>])
 Spec == Init /\ [][Next]_vars
 
 \* model-internal: the manager's range invariants are preserved by the modelled operations
